@@ -1,5 +1,5 @@
 import struct
-from udsoncan import Dtc, check_did_config, make_did_codec_from_definition, fetch_codec_definition_from_config, latest_standard, DIDConfig
+from udsoncan import Dtc, DidCodec, check_did_config, make_did_codec_from_definition, fetch_codec_definition_from_config, latest_standard, DIDConfig
 from udsoncan.Request import Request
 from udsoncan.Response import Response
 from udsoncan.exceptions import *
@@ -695,15 +695,19 @@ class ReadDTCInformation(BaseService):
                     codec = make_did_codec_from_definition(codec_definition)
 
                     data_offset = dtc_snapshot_did_size
-                    if len(remaining_data[data_offset:]) < len(codec):
+                    try:
+                        codec_len = len(codec)
+                    except DidCodec.ReadAllRemainingData:   # The end of a snapshot DID cannot be found without a length.
+                        raise ConfigError(did, msg='Codec of snapshot data identifier 0x%04x must have a fixed length' % did)
+                    if len(remaining_data[data_offset:]) < codec_len:
                         raise InvalidResponseException(response, 'Incomplete response. Data for DID 0x%04x is only %d bytes while %d bytes is expected' % (
-                            did, len(remaining_data[data_offset:]), len(codec)))
+                            did, len(remaining_data[data_offset:]), codec_len))
 
-                    snapshot.raw_data = remaining_data[data_offset:data_offset + len(codec)]
+                    snapshot.raw_data = remaining_data[data_offset:data_offset + codec_len]
                     snapshot.data = codec.decode(snapshot.raw_data)
 
                     dtc.snapshots.append(snapshot)
-                    actual_byte += dtc_snapshot_did_size + len(codec)
+                    actual_byte += dtc_snapshot_did_size + codec_len
 
             response.service_data.dtcs.append(dtc)
             response.service_data.dtc_count = 1
@@ -781,16 +785,20 @@ class ReadDTCInformation(BaseService):
                     codec = make_did_codec_from_definition(codec_definition)
 
                     data_offset = dtc_snapshot_did_size
-                    if len(remaining_data[data_offset:]) < len(codec):
+                    try:
+                        codec_len = len(codec)
+                    except DidCodec.ReadAllRemainingData:   # The end of a snapshot DID cannot be found without a length.
+                        raise ConfigError(did, msg='Codec of snapshot data identifier 0x%04x must have a fixed length' % did)
+                    if len(remaining_data[data_offset:]) < codec_len:
                         raise InvalidResponseException(response, 'Incomplete response. Data for DID 0x%04x is only %d bytes while %d bytes is expected' % (
-                            did, len(remaining_data[data_offset:]), len(codec)))
+                            did, len(remaining_data[data_offset:]), codec_len))
 
-                    snapshot.raw_data = remaining_data[data_offset:data_offset + len(codec)]
+                    snapshot.raw_data = remaining_data[data_offset:data_offset + codec_len]
                     snapshot.data = codec.decode(snapshot.raw_data)
 
                     dtc.snapshots.append(snapshot)
 
-                    actual_byte += dtc_snapshot_did_size + len(codec)
+                    actual_byte += dtc_snapshot_did_size + codec_len
 
                 response.service_data.dtcs.append(dtc)
             response.service_data.dtc_count = len(response.service_data.dtcs)
